@@ -86,6 +86,22 @@ Theorem C09_reported_wf : forall a b s, sup a b = Some s -> wf_subs s.
 Proof. exact sup_wf. Qed.
 Print Assumptions C09_reported_wf.
 
+(* reflexivity: every header generalises itself, and the reported substitution leaves every
+   parameter alone (this is what puts blocks with one and the same header into one family) *)
+Theorem C09_reflexive : forall a, cwf [] a = true ->
+  exists s, sup a a = Some s /\ (forall p v, In (p, v) s -> v = VIdentity).
+Proof. exact sup_refl_identity. Qed.
+Print Assumptions C09_reflexive.
+
+Example C09_reflexive_nonvacuous :
+  cwf [] ex_pat = true /\ params ex_pat <> [] /\
+  exists s, sup ex_pat ex_pat = Some s /\ s <> [].
+Proof.
+  split; [vm_compute; reflexivity|]. split; [vm_compute; discriminate|].
+  eexists. split; [vm_compute; reflexivity|discriminate].
+Qed.
+Print Assumptions C09_reflexive_nonvacuous.
+
 (* ===================================================================================== *)
 (* C10 -- bound re-expression over a more general header is exact                         *)
 (* ===================================================================================== *)
@@ -129,6 +145,21 @@ Theorem C10_exact_enumeration : forall s bounded trait_,
   subst_key s bounded trait_ = spec_key s bounded trait_.
 Proof. exact subst_key_is_spec. Qed.
 Print Assumptions C10_exact_enumeration.
+
+(* C09 reflexivity composed with C10: a block whose header IS the family's header has every
+   one of its bounds re-expressed as itself, and only as itself, with no side condition on
+   the bound -- the flat families of the documentation never rewrite a bound *)
+Theorem C10_same_header_unchanged : forall a, cwf [] a = true ->
+  exists s, sup a a = Some s /\
+    forall bounded trait_, stable_key s bounded trait_ = true /\
+                           subst_key s bounded trait_ = [(bounded, trait_)].
+Proof.
+  intros a Hc. destruct (sup_refl_identity a Hc) as (s & Hs & Hid).
+  exists s. split; [exact Hs|]. intros b t. split.
+  - exact (stable_key_identity s b t Hid).
+  - exact (subst_key_identity s b t Hid).
+Qed.
+Print Assumptions C10_same_header_unchanged.
 
 (* F25: for (T => T, U => T) the bound `T: D` is re-expressed both as `T: D` and as `U: D` *)
 Example C10_identity_param_is_a_value :
